@@ -376,6 +376,7 @@ def replay_playback(h, prop, res):
 		_write(rpath, f"// no concrete playback test was produced for {h.full}\n// failed checks:\n" +
 			"".join(f"//   {f['description']} @ {f['location']}\n" for f in res.failed))
 		return None, rpath, "no concrete test produced"
+	tests = [_sanitize_playback_test(t) for t in tests]
 	body = "\n".join(tests)
 	_write(rpath, f"// Concrete counterexample for harness {h.full} (property {prop}).\n"
 		f"// Replay: paste into the module of the harness in an overlay copy and run\n"
@@ -383,6 +384,16 @@ def replay_playback(h, prop, res):
 		f"// failed checks:\n" + "".join(f"//   {f['description']} @ {f['location']}\n" for f in res.failed) + body + "\n")
 	reproduced, detail = native_playback(h, body, rpath + ".native.log")
 	return reproduced, rpath, detail
+
+
+def _sanitize_playback_test(t):
+	"""Kani prints a multi-line cover!/assert! expression verbatim into the doc comment of the generated test: every line of
+	the header (everything before #[test]) must be a doc comment, or the test does not compile."""
+	if "#[test]" not in t:
+		return t
+	head, rest = t.split("#[test]", 1)
+	lines = [(l if (not l.strip() or l.lstrip().startswith("///")) else "/// " + l.strip()) for l in head.split("\n")]
+	return "\n".join(lines) + "#[test]" + rest
 
 
 def native_playback(h, body, native_log):
